@@ -23,6 +23,8 @@ Consistent(e) ==
   /\ SelOf(e) \subseteq IdxOf(e)
   /\ \A i \in ToSet(e.idx) : i.using = (\E s \in ToSet(e.sel) : s.o = i.o)
   /\ \A n \in DOMAIN e : n \notin {"otherfiles_d1", "otherfiles_d2"}
+  \* with the real wallet behind the keeper: every selected space signs under the key its files are named after
+  /\ ("signok" \in DOMAIN e => e.signok = TRUE)
 
 Unchanged(e) == IdxOf(e) = C.idx /\ {s.o : s \in SelOf(e)} = C.sel
 \* mirrored detail: a by-path request makes its directories the keeper's directories (even when it then selects
